@@ -27,7 +27,7 @@ SubseqFrom(evB, i, evA, j) ==
 IsSubseqEv(evB, evA) == SubseqFrom(evB, 1, evA, 1)
 
 Count(p, name) == Cardinality({i \in DOMAIN p : p[i].o = name})
-InjResult == [k |-> "obj", f |-> InjG, a |-> <<InjArgC>>, kw |-> <<>>, s |-> <<>>]
+InjResult == [k |-> "obj", f |-> InjG, a |-> <<InjArgC>>, kw |-> <<>>, s |-> <<>>, li |-> <<>>, di |-> <<>>]
 
 Keeps(mode)    == mode \in {"first_keep", "last_keep", "append_pop", "magic_end", "magic_idx"}
 Replaces(mode) == mode \in {"first_replace", "last_replace", "append_nopop"}
